@@ -559,8 +559,11 @@ def mesh_header_extras(idx: int) -> Dict[str, Any]:
 
 
 def mesh_spec(kinds: List[str], materials: Dict[str, List[Dict[str, Any]]], k: int, extras: int = 0, reverse_header: bool = False,
-              outer: str = "!") -> Dict[str, Any]:
-    return {"kinds": list(kinds), "materials": materials, "k": k, "extras": extras, "reverse_header": reverse_header, "outer": outer}
+              outer: str = "!", grid_full: bool = True) -> Dict[str, Any]:
+    """grid_full: the case belongs to the quick-tier set; in the thorough tier these get the full reader x writer
+    configuration grid in the edit-after-parse check, the remaining cases the reduced grid."""
+    return {"kinds": list(kinds), "materials": materials, "k": k, "extras": extras, "reverse_header": reverse_header, "outer": outer,
+            "grid_full": grid_full}
 
 
 def default_materials(kinds: List[str], k: int) -> Dict[str, List[Dict[str, Any]]]:
@@ -621,13 +624,13 @@ def mesh_cases(full: bool) -> Iterator[Dict[str, Any]]:
         for bits in range(1, 1 << len(SEGMENT_KINDS)):
             kinds = [kd for i, kd in enumerate(SEGMENT_KINDS) if bits >> i & 1]
             yield mesh_spec(kinds, default_materials(kinds, k + rot * 101), k + rot * 101, extras=k % 4, reverse_header=bool(k % 3 == 1),
-                            outer="!" if k % 5 else "<")
+                            outer="!" if k % 5 else "<", grid_full=rot == 0)
             k += 1
     k = 0
     for nv in (0, 1, 3):
         for lens in itertools.product(range(5), repeat=nv):
             for lod in (LODS if full else ("high_lod",)):
-                yield mesh_spec([lod, "skin"], {lod: [material_spec(nv, 1, list(lens), k)]}, k, extras=0)
+                yield mesh_spec([lod, "skin"], {lod: [material_spec(nv, 1, list(lens), k)]}, k, extras=0, grid_full=lod == "high_lod")
                 k += 1
     for nmat in (1, 2):
         for nv in (0, 1, 3):
@@ -635,7 +638,7 @@ def mesh_cases(full: bool) -> Iterator[Dict[str, Any]]:
                 for kk in range(12 if full else 4):
                     mats = [material_spec(nv if i == 0 else pick([3, 0, 1], kk), ntri, None, kk + i) for i in range(nmat)]
                     yield mesh_spec(["high_lod", "physics_mesh"], {"high_lod": mats, "physics_mesh": [material_spec(nv, ntri, None, kk)]},
-                                    kk, extras=kk % 4)
+                                    kk, extras=kk % 4, grid_full=kk < 4)
     yield mesh_spec([], {}, 0, extras=3)
 
 
